@@ -3,7 +3,7 @@ import re
 from vlib import core
 from vlib.core import hexs
 
-WRAP = "-Wl,--wrap=tls_record_send,--wrap=tls_record_recv,--wrap=sm2_do_ecdh,--wrap=tls_pre_master_secret_generate,--wrap=tls_record_set_handshake_certificate,--wrap=hkdf_expand,--wrap=tls_uint24array_to_bytes"
+WRAP = "-Wl,--wrap=tls_record_send,--wrap=tls_record_recv,--wrap=sm2_do_ecdh,--wrap=tls_pre_master_secret_generate,--wrap=tls_record_set_handshake_certificate,--wrap=hkdf_expand,--wrap=tls_uint24array_to_bytes,--wrap=sm2_sign_finish"
 PROTOS = ["tlcp", "tls12", "tls13"]
 VER = {"tlcp": "0101", "tls12": "0303", "tls13": "0304"}
 SUITE = {"tlcp": "e013", "tls12": "e011", "tls13": "00c6"}
@@ -132,6 +132,25 @@ def hs_cases(ctx):
             seed += 1
             sc = make_script(r, proto, [("c", 100, 7), ("s", 300, 20000)])
             cases.append(("hs %s 1 1 %d 0 %s %d" % (proto, seed, sc, nca), "hs:%s:auth1:nca=%s" % (proto, nca if nca else "2048-bytes"), proto, sc))
+    # every combination of {client holds a certificate or not} x {server asks for one or not}:
+    # auth 2 = client has a certificate the server does not ask for (must complete without client authentication),
+    # auth 3 = the server asks, the client has none (must fail on both sides)
+    for proto in PROTOS:
+        for auth in (2, 3):
+            seed += 1
+            sc = make_script(r, proto, [("c", 100, 7), ("s", 300, 20000)]) if auth == 2 else "-"
+            cases.append(("hs %s %d 1 %d 0 %s 1" % (proto, auth, seed, sc), "hs:%s:options:%s" % (proto, "cert-not-requested" if auth == 2 else "requested-no-cert"), proto, sc))
+    # presented chains (server's and client's) of exactly 2048 bytes = the size of conn->server_certs / client_certs
+    for proto in PROTOS:
+        seed += 1
+        sc = make_script(r, proto, [("c", 100, 7), ("s", 300, 20000)])
+        cases.append(("hs %s 1 9 %d 0 %s 1" % (proto, seed, sc), "hs:%s:auth1:chain=2048-bytes" % proto, proto, sc))
+    # non-blocking sockets after a blocking handshake: poll loop retrying on -EAGAIN while the proxy delivers every
+    # record header in two pieces with a pause in between
+    for proto in PROTOS:
+        seed += 1
+        sc = make_script(r, proto, [("c", 100, 7), ("s", 30000, 20000), ("partial", "c", 200, 3, 50), ("s", 1, 1)]).replace(",r", ",n")
+        cases.append(("hs %s %d 1 %d 2 %s 1" % (proto, seed % 2, seed, sc), "hs:%s:nonblocking-split-headers" % proto, proto, sc))
     # object reuse: a second session on the SAME TLS_CONNECT objects after session 1 ended in each interesting state
     for proto in PROTOS:
         for i, state in enumerate(["partial", "rejected", "closed", "hsfail"]):
@@ -179,6 +198,16 @@ def run(ctx):
             continue
         f = fields(out)
         bad = []
+        if line.startswith("hs ") and line.split(" ")[2] == "3":
+            # TLS 1.3: the client has finished before the server looks at the (absent) client certificate; the
+            # server must fail.  TLCP / TLS 1.2: the client aborts at CertificateRequest, both fail.
+            if f.get("rs") == "1" or (proto != "tls13" and f.get("rc") == "1"):
+                ctx.violation(cell + ":completed", "the server asked for a client certificate, the client has none, yet a side reports a completed handshake: rc=%s rs=%s [%s]" % (f.get("rc"), f.get("rs"), line[:80]), rep)
+            else:
+                ctx.cell(cell + ":fails-on-both-sides")
+            continue
+        if line.startswith("hs ") and line.split(" ")[3] == "9" and f.get("chainlen") != "2048/2048":
+            ctx.violation(cell + ":harness", "the generated chains are not 2048 bytes: %s" % f.get("chainlen"), rep, False); continue
         if f.get("rc") != "1" or f.get("rs") != "1":
             bad.append("handshake did not complete on both sides (client %s, server %s)" % (f.get("rc"), f.get("rs")))
         else:
@@ -219,24 +248,50 @@ def run(ctx):
             plain = ",".join(x for (d, x) in cv[:ccs[0]])
             pms = f["pms"] if proto == "tlcp" else f["ecdh"].split("/")[0]
             mlines.append("obs12 %s %s %s %s" % (pms, plain, cv[ccs[0] + 1][1], cv[ccs[1] + 1][1]))
+            sigline = "sigs12 %s %s" % (proto, plain)
         else:
             srv = [x for (d, x) in cv[1:] if d == "r"][1:]
             cli = [x for (d, x) in cv[1:] if d == "s"]
             sh = [x for (d, x) in cv[1:] if d == "r"][0]
             mlines.append("obs13 %s %s %s %s %s" % (f["ecdh"].split("/")[0], cv[0][1], sh, ",".join(srv), ",".join(cli)))
+            sigline = "sigs13 %s %s %s %s %s" % (f["ecdh"].split("/")[0], cv[0][1], sh, ",".join(srv), ",".join(cli))
         if line.startswith("hs2 ") and f.get("first", "").count("1") < 2 and "hsfail" not in line:
             ctx.violation(cell + ":first-session", "the first of the two sessions did not complete: %s [%s]" % (f.get("first"), line[:80]), rep); continue
         back.append((line, cell, proto, f, out, "obs"))
+        mlines.append(sigline)
+        back.append((line, cell, proto, f, out, "sigs"))
         if script != "-":
             mlines.append("xfer %s %s" % (proto, script))
             back.append((line, cell, proto, f, out, "xfer"))
     mouts, _ = core.run_lines(model, mlines, shards=min(16, max(1, len(mlines))))
+    # the signatures on the wire, verified with sm2_verify directly over the content the model prescribes
+    sigjobs = []
+    for bk, mo in zip(back, mouts):
+        if bk[5] == "sigs" and mo not in ("-", "") and not mo.startswith(("MODEL-", "ERR")):
+            for ent in mo.split(","):
+                name, idh, cert, content, sg = ent.split("|")
+                sigjobs.append((bk, name, "sigcheck %s %s %s %s" % (idh, cert, content, sg)))
+    sigouts, _ = core.run_lines(exe, [j[2] for j in sigjobs], shards=8) if sigjobs else ([], "")
+    sigres = {}
+    for (bk, name, _), o in zip(sigjobs, sigouts):
+        sigres.setdefault(bk[0], []).append((name, o))
     for (line, cell, proto, f, out, kind), mline, mo in zip(back, mlines, mouts):
         ctx.cov["evaluations"] += 1
         ctx.count("op:" + kind)
         rep = {"kind": "failing-input", "op": line, "impl": out[:3000], "model_op": mline[:3000], "expected": mo[:3000], "variant": "asan"}
-        if mo.startswith("MODEL-") or (mo.startswith("ERR") and kind == "obs"):
+        if mo.startswith("MODEL-") or (mo.startswith("ERR") and kind in ("obs", "sigs")):
             ctx.violation("model:" + cell, "model-side failure: " + mo[:200], rep, False); continue
+        if kind == "sigs":
+            res = sigres.get(line, [])
+            want = 2 if (line.split(" ")[2] == "1") else 1        # server signature; client CertificateVerify with client authentication
+            bad = ["%s does not verify over the content the model prescribes" % n for (n, o) in res if o != "1"]
+            if len(res) != want:
+                bad.append("%d authentication signature(s) found on the wire, %d expected" % (len(res), want))
+            if bad:
+                ctx.violation(cell + ":signed-content", "; ".join(bad) + " [%s]" % line[:100], rep)
+            else:
+                ctx.cell(cell + ":signed-content")
+            continue
         if kind == "obs":
             m = fields(mo)
             bad = []
@@ -309,6 +364,6 @@ def finish(ctx):
         "the rule of tls_encrypt_send 'no send while received data is still buffered' is respected by the scripts (reader drains before it writes), not modelled",
     ]
     return ctx.finish(level="proof",
-                      rule="unit ops tls_prf / tls13_hkdf_expand_label / tls13_hkdf_extract / tls13_compute_verify_data (label, length classes); sessions = 3 protocols x {server-auth, mutual-auth} x chain depth x {whole records, short reads} x trust stores / client-CA bundles of 1, 2, 3, 5 certificates and of exactly 2048 bytes; second sessions on reused TLS_CONNECT objects after session 1 ended with a partly read record / a rejected record / close_notify / a failed handshake: handshake completion and equality of version, suite, master_secret, key_block, installed round keys, IVs, sequence numbers on both sides; passive-observer model over the client's record view re-derives keys and both Finished messages; scripted transfers (write sizes 1, 2^14-1, 2^14, 2^14+1, 50000, random x read sizes 1, 7, 16384, 20000, random, both directions) compared with the Stream model: sentlen of every call, length and hash of every read, record boundaries, sequence numbers",
+                      rule="unit ops tls_prf / tls13_hkdf_expand_label / tls13_hkdf_extract / tls13_compute_verify_data (label, length classes); sessions = 3 protocols x {server-auth, mutual-auth} x chain depth x {whole records, short reads} x trust stores / client-CA bundles of 1, 2, 3, 5 certificates and of exactly 2048 bytes; second sessions on reused TLS_CONNECT objects after session 1 ended with a partly read record / a rejected record / close_notify / a failed handshake: handshake completion and equality of version, suite, master_secret, key_block, installed round keys, IVs, sequence numbers on both sides; passive-observer model over the client's record view re-derives keys and both Finished messages and the byte strings the ServerKeyExchange / CertificateVerify signatures sign (verified with sm2_verify directly under the certificate's key); scripted transfers (write sizes 1, 2^14-1, 2^14, 2^14+1, 50000, random x read sizes 1, 7, 16384, 20000, random, both directions) compared with the Stream model: sentlen of every call, length and hash of every read, record boundaries, sequence numbers",
                       trusted=core.TRUSTED_COMMON + ["link-time wrappers (--wrap) around tls_record_send/recv, sm2_do_ecdh, tls_pre_master_secret_generate that record each endpoint's view; proxy thread between two socketpairs",
                                                      "Coq files: Tls/KeySched.v KeySchedInst.v Stream.v (models), Tls/KeySchedProofs.v StreamProofs.v (proofs), Tls/Record*.v, Hash/*, Cipher/SM4.v"])
